@@ -22,7 +22,8 @@ RULE = ("exhaustive: one record of every length 1..L at every line width 1..W (q
         "only after all fetches are done; sessions of 2..8 calls on ONE open IndexedFasta (interval fetches whose first interval "
         "starts exactly where the previous read stopped, whole-contig fetches, items()/values(), repeats), every result checked "
         "right after its call and again after all later calls; every kind of case also on the FASTA without its final newline "
-        "(exhaustive block: last line exactly full or short x every interval x both paths). Non-trivial = an interval touching or crossing a line break, W = 1, a short last line, "
+        "(exhaustive block: last line exactly full or short x every interval x both paths); the FASTA at one path replaced "
+        "(same size in bytes / other size) with its .fai removed and opened again in the same process, first object still alive. Non-trivial = an interval touching or crossing a line break, W = 1, a short last line, "
         ">= 2 records or a description")
 EXHAUSTIVE = {"quick": True, "thorough": True}
 MODEL_OPS = {"index", "fetch", "contig", "genome", "index_chunked", "create_index", "session"}
@@ -422,6 +423,24 @@ def _cases(tier, rng):
     for _ in range(900 if big else 160):
         recs = _rand_recs(rng, 24 if rng.random() < 0.7 else 60, 9, big_file=rng.random() < 0.3)
         yield {"op": "session", "recs": recs, "steps": _session_steps(rng, recs)}
+    # 2f. the FASTA at ONE path replaced by other content (same size in bytes: other bases / swapped record lengths / permuted
+    #     records; or another size), its .fai removed, and opened again in the same process; also two files alive at once
+    for _ in range(300 if big else 50):
+        recs = _rand_recs(rng, 16)
+        kind = rng.choice(["bases", "swap", "permute", "resize", "bases"])
+        if kind == "bases":
+            recs2 = [dict(r, seq=_seq(rng, len(r["seq"]))) for r in recs]
+        elif kind == "swap" and len(recs) >= 2:
+            # two records exchange their sequences (and widths): same bytes in total, different lengths per name
+            i, j = rng.sample(range(len(recs)), 2)
+            recs2 = [dict(r) for r in recs]
+            recs2[i]["seq"], recs2[j]["seq"] = recs[j]["seq"], recs[i]["seq"]
+            recs2[i]["w"], recs2[j]["w"] = recs[j]["w"], recs[i]["w"]
+        elif kind == "permute":
+            recs2 = recs[::-1]
+        else:
+            recs2 = [dict(r, seq=_seq(rng, len(r["seq"]) + rng.choice([1, 2, 5]))) for r in recs]
+        yield {"op": "reopen", "recs": recs, "recs2": recs2, "via": rng.choice(["open_indexed", "genome"])}
     # 3. random multi-record files
     for _ in range(1500 if big else 120):
         # one file in four is several hundred bytes long (offsets beyond one line / one small chunk)
@@ -666,6 +685,25 @@ def _impl(c):
             if final != [first for _, _, first in live]:
                 return {"err": "result-changed-after-a-later-call", "final": final}
             return final
+        if op == "reopen":
+            def observe():
+                if c["via"] == "genome":
+                    g = bnp.Genome.from_file(p)
+                    gs = g.read_sequence()
+                    sizes = g.get_genome_context().chrom_sizes
+                    return {"lengths": sorted([k, int(v)] for k, v in sizes.items()),
+                            "seqs": sorted([k, gs.extract_chromsome(k).to_string().upper()] for k in sizes)}, gs
+                f = bnp.open_indexed(p)
+                ivs = [(k, n // 2, n) for k, n in f.get_contig_lengths().items()]
+                return {"lengths": sorted([k, int(v)] for k, v in f.get_contig_lengths().items()),
+                        "seqs": sorted([k, f[k].to_string().upper()] for k in f.keys()),
+                        "tails": [x.to_string().upper() for x in f.get_interval_sequences(Interval.from_entry_tuples(ivs))]}, f
+            first, keep = observe()
+            with open(p, "w") as fh:
+                fh.write(file_text(c["recs2"]))
+            os.remove(p + ".fai")
+            second, keep2 = observe()
+            return {"first": first, "second": second}
         if op == "create_index":
             from bionumpy.io.indexed_fasta import create_index
             idx = create_index(p)
@@ -775,6 +813,16 @@ def oracle(c):
                 "whole": [[name_of(r), hashlib.sha1(r["seq"].encode()).hexdigest()] for r in big_recs[::2]], "size": size}
     if op == "index_chunked":
         return {"rows": true_index(recs)}
+    if op == "reopen":
+        if not in_domain(c["recs2"]) or (c["via"] == "genome" and any("_" in name_of(r) for r in recs + c["recs2"])):
+            return SKIP
+
+        def exp(rs):
+            d = {"lengths": sorted([name_of(r), len(r["seq"])] for r in rs), "seqs": sorted([name_of(r), r["seq"].upper()] for r in rs)}
+            if c["via"] != "genome":
+                d["tails"] = [r["seq"][len(r["seq"]) // 2:].upper() for r in rs]
+            return d
+        return {"first": exp(recs), "second": exp(c["recs2"])}
     if op == "session":
         out = []
         for st in c["steps"]:
@@ -858,6 +906,8 @@ def finding_key(c, got, exp):
         if all(gl[0] == el[0] and gl[1] == row[3] for gl, el, row in zip(got["lengths"], exp["lengths"], exp["rows"])):
             return "contig_lengths:bases-per-line"
         return "contig_lengths:wrong"
+    if op == "reopen":
+        return "reopen:stale-object-for-a-replaced-file" if isinstance(got, dict) and got.get("first") == exp["first"] else "reopen:wrong-result"
     if op == "session":
         if isinstance(got, dict) and got.get("err") == "result-changed-after-a-later-call":
             return "session:result-changed-after-a-later-call"
